@@ -144,4 +144,16 @@ def step (s : WState α) : Op α → WState α
 def run (ids : List α) (c : Cond) (m : Mgr α) (cache : List (α × Obs)) (ops : List (Op α)) : WState α :=
   ops.foldl step (start ids c m cache)
 
+/-! ### `updateRESTMapper` (task.go): the goroutine that ends the phase resets the RESTMapper, after the context is done
+(none pending / deadline / cancel) and before the task result is delivered, iff the phase contains a CRD that was not skipped -/
+
+/-- `foundCRD` of `updateRESTMapper`: some id of the task is a CRD (`id.GroupKind == crdGK`) and not `w.skipped` -/
+def needsReset (ids : List α) (crd : α → Bool) (m : Mgr α) (c : Cond) : Bool :=
+  ids.any (fun id => crd id && !skipped c m id)
+
+/-- number of `Reset()` calls the task has made on its mapper in state `s`: the ending goroutine runs once, only after
+`cancelFunc` / the deadline (`s.cancelled`), and reads the actuation table as it is then -/
+def resets (crd : α → Bool) (s : WState α) : Nat :=
+  if s.cancelled && needsReset s.ids crd s.mgr s.cond then 1 else 0
+
 end CliUtils.Wait
